@@ -25,7 +25,7 @@ def run_one(sid):
                 if any(v.get("exit") == 1 for t in out.values() for v in t.values()):
                     break          # already caught by an earlier (the target) property
                 for tier in ("quick", "thorough"):
-                    r = subprocess.run(["/verif/check", p, "--tier", tier, "--no-evidence"], env=dict(os.environ, VERIF_REPO=tmp), capture_output=True, text=True)
+                    r = subprocess.run([os.environ.get("VERIF_SNAPSHOT", "/verif") + "/check", p, "--tier", tier, "--no-evidence"], env=dict(os.environ, VERIF_REPO=tmp), capture_output=True, text=True)
                     keys = [l.split()[1].rstrip(":") for l in r.stdout.splitlines() if l.startswith("violation ")]
                     out.setdefault(p, {})[tier] = {"exit": r.returncode, "keys": keys[:4]}
                     if r.returncode == 1:
@@ -39,7 +39,7 @@ def run_one(sid):
 def main():
     ids = [a for a in sys.argv[1:] if not a.startswith("--")] or sorted(os.listdir(SEEDED))
     if "--run" in sys.argv:
-        with concurrent.futures.ThreadPoolExecutor(3) as ex:
+        with concurrent.futures.ThreadPoolExecutor(4) as ex:
             for sid in ex.map(run_one, ids):
                 print("checked", sid, file=sys.stderr)
     print("| id | property | what the change does | needs | caught by |")
